@@ -4,6 +4,7 @@
 From Coq Require Import List NArith ZArith Bool Arith Lia ZifyNat ZifyN ZifyBool.
 From LH Require Import Base.Bytes Base.Res Model.Codec Model.Lexer.
 Import ListNotations.
+Set Default Proof Using "Type".
 
 (* ------------------------------------------------------------------ nth_byte *)
 Lemma nth_byte_Some_lt ch i c : nth_byte ch i = Some c -> (i < length ch)%nat.
